@@ -73,15 +73,65 @@ pub fn run_impl(lines: &[String]) -> Vec<String> {
 
 /// outputs of the implementation, and the lines to give the model (some abstract lines only
 /// become concrete once executed)
+/// what every thread that drives the implementation is executing right now (for the termination watchdog)
+pub static PROGRESS: Mutex<Vec<(std::thread::ThreadId, Arc<Vec<String>>, usize, std::time::Instant)>> = Mutex::new(Vec::new());
+
+fn progress(lines: &Arc<Vec<String>>, i: usize) {
+    let me = std::thread::current().id();
+    let mut g = PROGRESS.lock().unwrap();
+    match g.iter_mut().find(|e| e.0 == me) {
+        Some(e) => *e = (me, lines.clone(), i, std::time::Instant::now()),
+        None => g.push((me, lines.clone(), i, std::time::Instant::now())),
+    }
+}
+
+fn progress_done() {
+    let me = std::thread::current().id();
+    PROGRESS.lock().unwrap().retain(|e| e.0 != me);
+}
+
+/// Termination watchdog: if one call into the library has not returned after `limit`, the campaign cannot finish.
+/// The result file is written with that history as a failure of the implementation (no panic, no error: a hang),
+/// and the process exits.
+pub fn spawn_watchdog(prop: String, tier: String, seed: u64, out: String, limit: std::time::Duration) {
+    std::thread::spawn(move || loop {
+        std::thread::sleep(std::time::Duration::from_secs(2));
+        let stuck = {
+            let g = PROGRESS.lock().unwrap();
+            g.iter().find(|e| e.3.elapsed() > limit).map(|e| (e.1.clone(), e.2))
+        };
+        if let Some((lines, i)) = stuck {
+            let prefix: Vec<String> = lines[..=i.min(lines.len().saturating_sub(1))].to_vec();
+            let o = Outcome {
+                stats: Stats::default(),
+                mismatches: vec![],
+                samples: vec![],
+                oracle_failures: vec![serde_json::json!({
+                    "kind": "impl-oracle", "oracle": "termination", "tags": ["hang"],
+                    "what": format!("`{}` did not return within {} s: the call does not terminate (or blocks forever)", prefix.last().cloned().unwrap_or_default().chars().take(80).collect::<String>(), limit.as_secs()),
+                    "lines": prefix, "case": "watchdog"})],
+                oracle_checked: 1,
+            };
+            let j = outcome_json(&prop, &tier, seed, &o, serde_json::json!({"rule": "campaign interrupted by the termination watchdog", "exhaustive": false, "per_line": false, "wall_s": 0.0}));
+            let _ = std::fs::write(&out, serde_json::to_string_pretty(&j).unwrap());
+            eprintln!("{prop} {tier} cfg={} interrupted: a call into the library did not return within {} s", crate::util::CFG, limit.as_secs());
+            std::process::exit(0);
+        }
+    });
+}
+
 pub fn run_impl2(lines: &[String]) -> (Vec<String>, Vec<String>) {
     let mut real = Real::new();
     let mut outs = vec![];
     let mut mlines = vec![];
-    for l in lines {
+    let shared = Arc::new(lines.to_vec());
+    for (i, l) in lines.iter().enumerate() {
+        progress(&shared, i);
         real.model_line = None;
         outs.push(real.step(l));
         mlines.push(real.model_line.take().unwrap_or_else(|| l.clone()));
     }
+    progress_done();
     (outs, mlines)
 }
 
